@@ -92,9 +92,10 @@ type c19AbsCid struct {
 }
 
 type c19Cid struct {
-	C     c19AbsCid `json:"c"`
-	Ok    bool      `json:"ok"`
-	Bytes []int     `json:"bytes"`
+	C      c19AbsCid `json:"c"`
+	Stored bool      `json:"stored"` // the model's encoder accepts the id
+	Ok     bool      `json:"ok"`
+	Bytes  []int     `json:"bytes"`
 }
 
 type c19Input struct {
@@ -773,8 +774,8 @@ func c19ReceiptCase(res *verifkit.Result, diverge map[string]int, m c19Mutation,
 		c19Judge(res, diverge, m, x.style, bd, md, map[string]interface{}{"base": c19DumpReceipt(base), "mutant": c19DumpReceipt(x.r)})
 		// what the commitment covers must survive storage: write and read the mutant.  The events of a receipt carry the
 		// receipt's own transaction hash (the node fills both from the same transaction; the readers restore it).
-		// CumulativeFeeUsed: nothing in the node sets it; the stored containers with that field set are examined by
-		// c19RunCodec with sample values that keep the decoder's allocations bounded (see c19Concrete).
+		// CumulativeFeeUsed: the stored containers with that field set are examined by c19RunCodec, with sample values
+		// that keep the allocations of a defective decoder bounded (see c19Concrete).
 		if strings.HasSuffix(m.Field, ".TxHash") || m.Field == "CumulativeFeeUsed" {
 			continue
 		}
@@ -881,7 +882,7 @@ func c19RunLists(in *c19Input, res *verifkit.Result, diverge map[string]int) {
 				pattern = "odd-tail-repeated"
 			}
 			if reported < 4 {
-				c19Violate(res, map[string]interface{}{"kind": "root-not-binding", "root": c19RootClass(f.name), "pattern": pattern},
+				c19Violate(res, map[string]interface{}{"kind": "root-not-binding", "level": "types", "root": c19RootClass(f.name), "pattern": pattern},
 					map[string]interface{}{"root": f.name, "lists": []c19List{a, b}, "colliding_lists": len(idx)},
 					"%s root: the different lists %v and %v (block bloom %v/%v) have the same root", f.name, a.List, b.List, a.Bloom, b.Bloom)
 				reported++
@@ -942,7 +943,7 @@ func c19RunLists(in *c19Input, res *verifkit.Result, diverge map[string]int) {
 				if c19PadEquivalent(ids, vid) {
 					pattern = "odd-tail-repeated"
 				}
-				c19Violate(res, map[string]interface{}{"kind": "root-not-binding", "root": "txs", "pattern": pattern},
+				c19Violate(res, map[string]interface{}{"kind": "root-not-binding", "level": "types", "root": "txs", "pattern": pattern},
 					map[string]interface{}{"root": "txs", "length": n, "variant": name, "position": i, "list": ids, "other": vid},
 					"txs root: a list of %d transactions and its variant '%s' have the same root", n, name)
 			}
@@ -977,10 +978,10 @@ func c19Cells(cells []int, rng *rand.Rand, first byte) []byte {
 	return b
 }
 
-// c19Concrete builds a concrete receipt from the abstract one.  When CumulativeFeeUsed is set the real decoder reads
-// the event counter from the wrong place (4 bytes of payload); to keep what it then allocates small the samples are
-// chosen so that those bytes are small numbers: CumulativeFeeUsed is 4 bytes long and addresses have zeros after
-// their prefix byte (the caller passes such addresses).
+// c19Concrete builds a concrete receipt from the abstract one.  A decoder that loses its position after
+// CumulativeFeeUsed (the stray advance repaired by 7559143f) takes 4 bytes of payload for the event counter; so that a
+// tree with such a defect allocates little, the samples with that field set use a 4-byte value and addresses with
+// zeros after their prefix byte (the caller passes such addresses).
 func c19Concrete(a c19AbsReceipt, addrs [][]byte, rng *rand.Rand) *Receipt {
 	r := NewReceipt(addrs[a.Addr-1], a.Status, "")
 	if len(a.Ret) > 0 {
@@ -1084,6 +1085,9 @@ func c19RunCids(in *c19Input, res *verifkit.Result, diverge map[string]int) {
 			}
 			res.Count(fmt.Sprintf("cid|%v|%d", wide, ci))
 			b, err := id.Bytes()
+			if (err == nil) != c.Stored {
+				diverge[fmt.Sprintf("chain id: model encoder accepts=%v, real encoder accepts=%v", c.Stored, err == nil)]++
+			}
 			if err != nil {
 				continue // refused when written: nothing was stored
 			}
